@@ -2,7 +2,7 @@
    (effect log, participations of the book): what a settled bet is paid, from which module account, in which order, and what is booked on the
    participations that backed it.  They ARE the model's bettor_wins / bettor_loses and the two payments of a refunded bet in settle_bet. *)
 From Coq Require Import ZArith Bool List Lia.
-From Sge Require Import Lib.Dec Model.Types Model.Orderbook Model.Chain Gen.kernels Proofs.GenOb Proofs.GenBet Proofs.GenSettle.
+From Sge Require Import Lib.Dec Model.Types Model.Orderbook Model.Chain Gen.kernels Proofs.GenOb Proofs.GenBet Proofs.GenMarket Proofs.GenSettle.
 Import ListNotations.
 Open Scope Z_scope.
 
@@ -109,4 +109,102 @@ Proof.
   specialize (Hrun fs b). destruct (bettor_loses b fs) as [b'|].
   - rewrite Hrun. reflexivity.
   - destruct Hrun as [st E]. rewrite E. reflexivity.
+Qed.
+
+(* ---- x/bet/keeper/settle.go --------------------------------------------------------------------------------------------------------- *)
+Lemma gen_WithdrawBetFee effs0 parts creator fee :
+  K_settle_WithdrawBetFee (settle_state effs0 parts) creator fee = Some (settle_state (effs0 ++ [Pay BETFEE creator fee]) parts).
+Proof. unfold K_settle_WithdrawBetFee, settle_state. cbn [S_settle_Effects S_settle_Parts set_S_settle_Effects]. rewrite map_app. reflexivity. Qed.
+
+Lemma gb_of_set_status b st : set_G_Bet_Status (gb_of b) st = gb_of (bet_with b st (b_result b) (b_sheight b)).
+Proof. reflexivity. Qed.
+
+(* settleResolved: a lost bet books its stakes, a won bet is paid; the bet becomes settled *)
+Lemma gen_settleResolved b bk effs0 : b_result b = BR_WON \/ b_result b = BR_LOST ->
+  K_settle_settleResolved (settle_state effs0 (bk_parts bk)) (gb_of b) =
+  if b_result b =? BR_LOST
+  then match bettor_loses bk (b_parts b) with
+       | None => None
+       | Some bk' => Some (settle_state effs0 (bk_parts bk'), gb_of (bet_with b BS_SETTLED (b_result b) (b_sheight b)))
+       end
+  else match bettor_wins bk (b_creator b) (b_parts b) with
+       | None => None
+       | Some (bk', effs) => Some (settle_state (effs0 ++ effs) (bk_parts bk'), gb_of (bet_with b BS_SETTLED (b_result b) (b_sheight b)))
+       end.
+Proof.
+  intros HR. unfold K_settle_settleResolved, BR_LOST, BR_WON in *.
+  change (G_Bet_Result (gb_of b)) with (b_result b). change (G_Bet_Creator (gb_of b)) with (b_creator b).
+  change (G_Bet_BetFulfillment (gb_of b)) with (map gbf_of (b_parts b)).
+  destruct (b_result b =? 3) eqn:E3.
+  - rewrite gen_BettorLoses. destruct (bettor_loses bk (b_parts b)); reflexivity.
+  - assert (E2 : b_result b =? 2 = true). { destruct HR as [H|H]; [apply Z.eqb_eq; exact H|]. apply Z.eqb_neq in E3. contradiction. }
+    rewrite E2. rewrite gen_BettorWins. destruct (bettor_wins bk (b_creator b) (b_parts b)) as [[bk' effs]|]; reflexivity.
+Qed.
+
+(* the state Settle works on, built from the model's market state: the uid index entry and the bet are the ones stored for this bet, the
+   market is the bet's market *)
+Definition bset_state (x : mstate) (b : bet) (id h : Z) : S_bset :=
+  {| S_bset_Ob := settle_state [] (bk_parts (ms_book x)); S_bset_Uid2ID := {| G_UID2ID_UID := b_uid b; G_UID2ID_ID := id |}; S_bset_Uid2IDFound := true;
+     S_bset_Bet := gb_of b; S_bset_BetFound := true; S_bset_Market := gm_of (ms_mkt x); S_bset_MarketFound := true; S_bset_Height := h;
+     S_bset_Pending := ms_pending x; S_bset_SettledIx := [] |}.
+Definition bset_after (x : mstate) (b : bet) (id h : Z) (x' : mstate) (effs : list effect) (res : Z) : S_bset :=
+  {| S_bset_Ob := settle_state effs (bk_parts (ms_book x')); S_bset_Uid2ID := {| G_UID2ID_UID := b_uid b; G_UID2ID_ID := id |}; S_bset_Uid2IDFound := true;
+     S_bset_Bet := gb_of (bet_with b BS_SETTLED res h); S_bset_BetFound := true; S_bset_Market := gm_of (ms_mkt x); S_bset_MarketFound := true;
+     S_bset_Height := h; S_bset_Pending := ms_pending x'; S_bset_SettledIx := [(id, h)] |}.
+(* the result a settlement records *)
+Definition settled_as (mk : market) (b : bet) : Z :=
+  if (k_status mk =? MK_ABORTED) || (k_status mk =? MK_CANCELED) then BR_REFUNDED
+  else if zmem (b_odds b) (k_winners mk) then BR_WON else BR_LOST.
+
+Lemma remb_filter id (l : list Z) : filter (fun g => negb (g =? id)) l = remb (Z.eqb id) l.
+Proof. unfold remb. induction l as [|a r IH]; cbn [filter]; [reflexivity|]. rewrite (Z.eqb_sym a id). destruct (id =? a); cbn [negb]; rewrite IH; reflexivity. Qed.
+
+(* Keeper.Settle IS the model's settle_bet: the same refusals, the same payments in the same order, the same participation updates, the
+   bet recorded as settled with the same result at this height, taken out of the pending index and entered once in the settled index *)
+Lemma gen_Settle x h id b :
+  findb (fun c => b_id c =? id) (ms_bets x) = Some b -> 0 <= b_uid b -> b_status b <> 2 ->
+  K_bset_Settle (bset_state x b id h) (b_creator b) (b_uid b) =
+  match settle_bet x h id with
+  | None => None
+  | Some (x', effs) => Some (bset_after x b id h x' effs (settled_as (ms_mkt x) b))
+  end.
+Proof.
+  intros HF HU HS. unfold K_bset_Settle, settle_bet. rewrite HF.
+  assert (EU : 0 <=? b_uid b = true) by (apply Z.leb_le; exact HU). rewrite EU.
+  cbn [negb bset_state S_bset_Ob S_bset_Uid2ID S_bset_Uid2IDFound S_bset_Bet S_bset_BetFound S_bset_Market S_bset_MarketFound G_UID2ID_ID].
+  change (G_Bet_Creator (gb_of b)) with (b_creator b). rewrite Z.eqb_refl. cbn [negb].
+  assert (EE : K_Bet_CheckSettlementEligiblity (gb_of b) = negb (b_status b =? BS_SETTLED)) by (unfold gb_of; apply gen_bet_eligible; exact HS).
+  rewrite EE. rewrite negb_involutive. destruct (b_status b =? BS_SETTLED); [reflexivity|].
+  change (G_Market_Status (gm_of (ms_mkt x))) with (k_status (ms_mkt x)). change (G_Market_Creator (gm_of (ms_mkt x))) with (k_creator (ms_mkt x)).
+  unfold settled_as, MK_ABORTED, MK_CANCELED.
+  destruct ((k_status (ms_mkt x) =? 4) || (k_status (ms_mkt x) =? 3)) eqn:ECA.
+  - (* cancelled / aborted: stake and fee back *)
+    change (G_Bet_OddsValue (gb_of b)) with (b_oddsval b). change (G_Bet_Amount (gb_of b)) with (b_amount b). change (G_Bet_Fee (gb_of b)) with (b_fee b).
+    rewrite gen_CalculatePayoutProfit. destruct (payout_profit (b_oddsval b) (b_amount b)) as [pp|]; [|reflexivity].
+    rewrite gen_RefundBettor. cbn [app].
+    unfold K_bset_updateSettlementState, bset_after. cbn [set_S_bset_Ob set_S_bset_Bet set_S_bset_Pending set_S_bset_SettledIx
+      S_bset_Ob S_bset_Uid2ID S_bset_Uid2IDFound S_bset_Bet S_bset_BetFound S_bset_Market S_bset_MarketFound S_bset_Height S_bset_Pending S_bset_SettledIx
+      G_UID2ID_ID mstate_upd ms_book ms_pending app]. rewrite remb_filter. reflexivity.
+  - (* resolved: the verdict, the order-book side, the bet fee to the market creator *)
+    rewrite gen_SetResult. destruct (negb (k_status (ms_mkt x) =? MK_DECLARED)); [reflexivity|].
+    set (r := if zmem (b_odds b) (k_winners (ms_mkt x)) then BR_WON else BR_LOST).
+    set (b1 := bet_with b BS_DECLARED r (b_sheight b)).
+    assert (HR : b_result b1 = BR_WON \/ b_result b1 = BR_LOST) by (unfold b1, r; cbn [bet_with b_result]; destruct (zmem _ _); [left|right]; reflexivity).
+    rewrite (gen_settleResolved b1 (ms_book x) [] HR).
+    change (b_result b1) with r. change (b_parts b1) with (b_parts b). change (b_creator b1) with (b_creator b). change (b_sheight b1) with (b_sheight b).
+    unfold r. destruct (zmem (b_odds b) (k_winners (ms_mkt x))) eqn:EW.
+    + change (BR_WON =? BR_LOST) with false. cbv iota.
+      destruct (bettor_wins (ms_book x) (b_creator b) (b_parts b)) as [[bk' effs]|]; [|reflexivity].
+      cbn [set_S_bset_Ob S_bset_Ob]. change (G_Bet_Fee (gb_of (bet_with b1 BS_SETTLED BR_WON (b_sheight b)))) with (b_fee b).
+      rewrite gen_WithdrawBetFee.
+      unfold K_bset_updateSettlementState, bset_after. cbn [set_S_bset_Ob set_S_bset_Bet set_S_bset_Pending set_S_bset_SettledIx
+        S_bset_Ob S_bset_Uid2ID S_bset_Uid2IDFound S_bset_Bet S_bset_BetFound S_bset_Market S_bset_MarketFound S_bset_Height S_bset_Pending S_bset_SettledIx
+        G_UID2ID_ID mstate_upd ms_book ms_pending app]. rewrite remb_filter. reflexivity.
+    + change (BR_LOST =? BR_LOST) with true. cbv iota.
+      destruct (bettor_loses (ms_book x) (b_parts b)) as [bk'|]; [|reflexivity].
+      cbn [set_S_bset_Ob S_bset_Ob]. change (G_Bet_Fee (gb_of (bet_with b1 BS_SETTLED BR_LOST (b_sheight b)))) with (b_fee b).
+      rewrite gen_WithdrawBetFee.
+      unfold K_bset_updateSettlementState, bset_after. cbn [set_S_bset_Ob set_S_bset_Bet set_S_bset_Pending set_S_bset_SettledIx
+        S_bset_Ob S_bset_Uid2ID S_bset_Uid2IDFound S_bset_Bet S_bset_BetFound S_bset_Market S_bset_MarketFound S_bset_Height S_bset_Pending S_bset_SettledIx
+        G_UID2ID_ID mstate_upd ms_book ms_pending app]. rewrite remb_filter. reflexivity.
 Qed.
